@@ -36,7 +36,7 @@ def one(patch, base):
 def main():
     args = [a for a in sys.argv[1:] if not a.startswith("-")]
     patches = []
-    for a in args or sorted(os.path.join(VERIF, "benign", d) for d in os.listdir(os.path.join(VERIF, "benign"))):
+    for a in args or sorted(os.path.join(VERIF, "benign", d) for d in os.listdir(os.path.join(VERIF, "benign")) if os.path.isdir(os.path.join(VERIF, "benign", d))):
         a = os.path.abspath(a)
         patches.append(a if a.endswith(".diff") else os.path.join(a, "patch.diff"))
     run(f"{VERIF}/bin/check setup")
